@@ -230,6 +230,49 @@ def clause_state_writes(prog, rep):
                       "%s runs only after a successful rollback" % nm, "%s can run without a preceding successful rollback" % nm, c.loc())
 
 
+TERMINAL_STATES = ("ProcessedCommit", "Processed", "Failed", "EpochInvalidated")
+
+
+def _mutating_mls_call(f, c):
+    """an OpenMLS MlsGroup method called on a mutable borrow of the group (merge_*, clear_pending_*, store_pending_proposal, ...)"""
+    if last_seg(c.self_adt) != "MlsGroup" or not (c.krate or "").startswith("openmls") or not c.args or "p" not in c.args[0]:
+        return False
+    for l in A.copy_sources(f, c.args[0]["p"][0]):
+        if not isinstance(l, int):
+            continue
+        for bb, kind, x in f.defs().get(l, []):
+            if kind == "stmt" and x.get("k") == "ref" and x.get("mutb") == 1:
+                return True
+    return False
+
+
+def clause_redelivery_readonly(prog, rep):
+    """when the stored record of an event says it was already handled (ProcessedCommit / Processed / Failed / EpochInvalidated), what the
+    receive path does for that record never changes the MLS group: the arm of the match on the stored state reaches no OpenMLS call that
+    takes the group mutably (e.g. clearing a pending commit while answering for an older, already applied one)"""
+    core = K.core_scope(prog)
+    roots = prog.find(adt="MDK", name="process_message", crate="mdk_core")
+    scope = set(p for p in prog.reachable(roots) if p in core)
+    mut = A.ReachCache(prog, lambda c: _mutating_mls_call(c.fn, c))
+    n = 0
+    for p in sorted(scope):
+        f = prog.fns[p]
+        for v in TERMINAL_STATES:
+            for w, arm in A.variant_arms(prog, f, "ProcessedMessageState", v):
+                others = [s_ for s_ in f.succs()[w] if s_ != arm]
+                oth = set()
+                for o in others:
+                    oth |= f.reachable_from(o)
+                region = f.reachable_from(arm) - oth
+                n += 1
+                bad = sorted(set(c.name for c in f.live_calls() if c.bb in region and mut.call(c)))
+                rep.check(not bad, "redelivery-readonly", "%s/%s" % (prog.fns.get(f.root, f).label(), v),
+                          "what is done for a record in state %s does not touch the MLS group" % v,
+                          "for an event whose record says %s the receive path calls %s, which changes the MLS group (pending commit, proposals or epoch): "
+                          "re-delivering an already handled event is no longer a no-op" % (v, ", ".join(bad)), f.loc())
+    rep.floor("redelivery-readonly", "arms on terminal processed-message states", n, 4)
+
+
 def run(ctx, rep):
     prog = ctx.prog()
     rep.fns_analysed = len(K.core_scope(prog))
@@ -239,6 +282,7 @@ def run(ctx, rep):
     rep.clause("C07.2 dedup state table (symbolic exploration per stored state): Failed / EpochInvalidated end the call early with an Ok result and no write; other states continue")
     rep.clause("C07.3 the MIP-03 comparator is irreflexive (same commit is not better than itself) — decision table shared with C01")
     rep.clause("C07.6 the own-pending-commit shortcut requires ContentType::Commit and a pending commit")
+    rep.clause("C07.7 arms handling a record in a terminal state (ProcessedCommit / Processed / Failed / EpochInvalidated) reach no OpenMLS call that takes the group mutably")
     rep.clause("C07.4 a rewritten failure record keeps the message_event_id of the existing record")
     rep.clause("C07.5 mdk-core writes only Created/Processed into messages; invalidation and retry marking run only after a successful rollback")
     rep.not_decided = "MLS-state equality after replays (OpenMLS generation handling), behaviour over repetition counts"
@@ -254,3 +298,4 @@ def run(ctx, rep):
     clause_failure_record(prog, rep)
     clause_own_commit_pending(prog, rep)
     clause_state_writes(prog, rep)
+    clause_redelivery_readonly(prog, rep)
